@@ -197,6 +197,12 @@ MALFORMED += ['%s@%d' % (k, e) for k in ('cov_neg', 'cov_indef', 'cov_listneg', 
 MALFORMED += ['%s@%d' % (k, e) for k in ('cov_relneg', 'cov_listrelneg') for e in (-20, 0, 15)]
 
 
+# configuration numbers as numpy integers of any width / signedness (what binary and HDF5 files deliver): same verdicts
+ITYPES = ['uint8', 'uint16', 'uint32', 'uint64', 'int8', 'int16', 'int32']
+MALFORMED += ['typed_%s:%s' % (k, t) for k in ('unsorted', 'dup', 'descending') for t in ITYPES]
+MALFORMED += ['ok_typed_%s:%s' % (k, t) for k in ('irregular', 'regular', 'wide') for t in ITYPES]
+
+
 def check_malformed(ctx, case):
     probs = []
     k = case['what']
@@ -211,6 +217,12 @@ def check_malformed(ctx, case):
         idl = [[1, 2, 3, 5, 4, 6, 7, 8], list(range(1, 9))]
     elif k == 'dup_idl':
         idl = [[1, 2, 3, 3, 4, 6, 7, 8], list(range(1, 9))]
+    elif 'typed_' in k:
+        kind_, t_ = k.split('typed_')[1].split(':')
+        base = {'unsorted': [1, 2, 3, 5, 4, 6, 7, 8], 'dup': [1, 2, 3, 3, 4, 6, 7, 8], 'descending': [8, 7, 6, 5, 4, 3, 2, 1],
+                'irregular': [1, 2, 4, 5, 9, 10, 11, 20], 'regular': [3, 6, 9, 12, 15, 18, 21, 24], 'wide': [15, 30, 45, 60, 75, 90, 105, 120]}[kind_]
+        arr = np.array(base, dtype=t_)
+        idl = [arr if case.get('seed', 0) % 2 == 0 else list(arr), list(range(1, 9))]
     elif k == 'len_mismatch':
         idl = [list(range(1, 8)), list(range(1, 9))]
     elif k == 'too_few':
@@ -278,16 +290,30 @@ def check_malformed(ctx, case):
     except Exception:
         accepted = False
         o = None
-    if k in ('ok_control', 'ok_control_rep10') or k.startswith('ok_cov@'):
+    if k in ('ok_control', 'ok_control_rep10') or k.startswith('ok_cov@') or k.startswith('ok_typed_'):
         if not accepted:
-            probs.append(('violation', 'rejects-valid-request', ''))
+            probs.append(('violation', 'rejects-valid-request', k))
+        elif k.startswith('ok_typed_'):
+            bad = wf_any(o)
+            if bad:
+                probs.append(('violation', 'malformed:typed-idl', bad[:3]))
+            else:
+                # ... and the same observable as with plain integers
+                ref = pe.Obs(samples, names, idl=[[int(c) for c in idl[0]], idl[1]])
+                try:
+                    o.gamma_method()
+                    ref.gamma_method()
+                    if [int(c) for c in o.idl[names[0]]] != [int(c) for c in ref.idl[names[0]]] or abs(o.dvalue - ref.dvalue) > 1e-12 * ref.dvalue:
+                        probs.append(('violation', 'typed-idl-differs', '%r vs %r' % (o.dvalue, ref.dvalue)))
+                except Exception as e:
+                    probs.append(('violation', 'typed-idl-analysis', '%s: %s' % (type(e).__name__, str(e)[:100])))
         return probs
     if accepted:
         probs.append(('violation', 'accepts-malformed:' + k, 'request of kind %s was accepted' % k))
     # constructor model: same verdict
     if ctx.lean is not None and cov is None and k not in ('nonstring_name', 'merge_multi_ens'):
         req = {'op': 'mkobs', 'samples': [[f2b(v) for v in s] for s in samples], 'names': names,
-               'idl': None if idl is None else [dump_idl(i) for i in idl]}
+               'idl': None if idl is None else [dump_idl(i if isinstance(i, range) else [int(c) for c in i]) for i in idl]}
         r = ctx.lean.call(req)
         if '_err' in r:
             probs.append(('disagree', 'lean-driver-error', r['_err']))
@@ -429,6 +455,8 @@ def run(ctx):
                     cases.append({'kind': 'table', 'op': op, 'lk': lk, 'rk': rk, 'seed': 7})
     for w in MALFORMED:
         cases.append({'kind': 'malformed', 'what': w})
+        if 'typed_' in w:
+            cases.append({'kind': 'malformed', 'what': w, 'seed': 1})      # ... as a list of numpy scalars
     for _ in range(ctx.budget(60, 1500)):
         cases.append({'kind': 'sequence', 'seed': ctx.rng.getrandbits(30), 'len': ctx.rng.randint(5, 25)})
     for case in cases:
